@@ -179,7 +179,10 @@ class ndarray:
         return ndarray(out, uint8)
 
     def tobytes(self) -> bytes:
-        return builtins.bytes(builtins.int(x) for x in self._cells())
+        cells = self.view(uint8).raw() if self.dtype is not uint8 else self.raw()
+        if any(not isinstance(x, builtins.int) for x in cells):
+            raise Unsupported("tobytes() of an array with symbolic contents")
+        return builtins.bytes(cells)
 
     def __eq__(self, o: typing.Any) -> typing.Any:  # elementwise comparisons are only used by nunavut_support's own unit tests
         raise Unsupported("elementwise array comparison")
@@ -195,6 +198,12 @@ def _is_seq(v: typing.Any) -> bool:
 
 
 def _scalar_out(v: typing.Any, d: DType) -> typing.Any:
+    """element as seen by code that reads it out of the array: float16/32/64 scalars behave as Python floats (exact widening)"""
+    if d.kind == "f" and isinstance(v, tuple) and v and v[0] == "fbits":
+        srt = {16: z3.Float16(), 32: z3.Float32(), 64: z3.Float64()}[d.bits]
+        bits = v[1] if not isinstance(v[1], builtins.int) else z3.BitVecVal(v[1], d.bits)
+        f = z3.fpBVToFP(bits, srt)
+        return SymFloat(f if d.bits == 64 else z3.fpFPToFP(sym.RNE, f, sym.F64))
     return v
 
 
@@ -230,7 +239,11 @@ def _cell_in(v: typing.Any, d: DType) -> typing.Any:
     if isinstance(v, tuple) and v and v[0] == "fbits":
         return v
     if isinstance(v, SymFloat):
-        return ("fbits", _fp_to_bits(v.z, d.bits, overflow_to_inf=True))
+        srt = {16: z3.Float16(), 32: z3.Float32(), 64: z3.Float64()}[d.bits]
+        y = _narrow(v.z, srt)
+        if z3.is_app(y) and y.decl().kind() == z3.Z3_OP_FPA_TO_FP and y.num_args() == 1 and z3.is_bv(y.arg(0)):
+            return ("fbits", y.arg(0))           # the value was read from a bit pattern: storing it back keeps the pattern (NaN payloads aside)
+        return ("fbits", z3.simplify(z3.fpToIEEEBV(y)))
     if isinstance(v, (builtins.int, builtins.float)):
         return ("fbits", _fp_to_bits(z3.FPVal(builtins.float(v), sym.F64), d.bits, overflow_to_inf=True))
     raise Unsupported(f"cannot store {type(v).__name__} into a {d.name} array")
